@@ -432,6 +432,20 @@ pub fn judge<'f>(s: &mut Sess, _fs: &'f Fs, _hs: &mut [Option<H<'f>>], op: &Op, 
                 *c = want;
             }
         }
+        Op::Extents { h } => {
+            let node = match &s.model.handles[*h] {
+                Some(MH::File { node, .. }) => *node,
+                _ => return,
+            };
+            if ek != EK::Ok {
+                s.violate("C04", "extents-error", op, ek.name(), format!("{} failed with {}", op.show(), ek.name()));
+                return;
+            }
+            let size = s.model.nodes[node].content.len() as u64;
+            if out.n != size {
+                s.violate("C04", "extents-length", op, "", format!("{} covers {} bytes, the file has {}", op.show(), out.n, size));
+            }
+        }
         Op::Truncate { h } => {
             let (node, cur) = match &s.model.handles[*h] {
                 Some(MH::File { node, cur, .. }) => (*node, *cur),
